@@ -20,6 +20,14 @@
 (*         forms after conversion, job outcomes and returned values are    *)
 (*         the specification's; NoInterference holds of the final memory.  *)
 (*                                                                         *)
+(* Episodes of mode "efb" run the jobs as EliasFanoConcurrentBuilder::set  *)
+(* calls on a real builder whose vectors are private: their steps carry no *)
+(* memory (hook and next hook only, which still show every compare-        *)
+(* exchange outcome), BEGIN must describe the builder's allocation, and    *)
+(* the end event carries the low / high bits and the values of the built   *)
+(* structure and of the sequential EliasFanoBuilder over the same values:  *)
+(* both must be the specification's final memory and the input values.     *)
+(*                                                                         *)
 (* The instance stays out of the state: `inst` is the index of the BEGIN   *)
 (* line and InstOf reads it from the trace.  Handlers are total: a         *)
 (* rejected line prints MISMATCH and the rest of its episode is skipped.   *)
@@ -54,6 +62,7 @@ StepWhy(ev) ==
              \* value returned by a call completed in this step
              r == IF x.jix > jix[t] THEN x.ret[jix[t]] ELSE <<>>
          IN  IF <<ev.kind, ev.word>> # o THEN "hook"
+             ELSE IF I.mode = "efb" THEN (IF ev.nx # nxt THEN "next" ELSE IF ev.r # r THEN "ret" ELSE "ok")
              ELSE IF SeqSet(ev.cur) # want THEN "mem"
              ELSE IF \E c \in SeqSet(ev.chg) :
                         \/ c.v # (IF isf THEN "f" ELSE "b") \/ c.k # o[2] \/ SeqSet(c.bits) # want
@@ -74,8 +83,52 @@ OutsEq(logged)   ==
          /\ \A k \in 1 .. Len(Prog(t)) :
               logged[t][k] = <<IF InDomain(Prog(t)[k]) THEN "ret" ELSE "panic", ret[t][k]>>
 
-EndWhy(ev) ==
+\* ----- mode "efb" ----------------------------------------------------------
+Pow2(k)      == 2 ^ k
+BitsOfNat(x, k) == {c \in Low(k) : (x \div Pow2(c)) % 2 = 1}
+CeilDiv(a, c) == (a + c - 1) \div c
+
+\* the header describes what EliasFanoConcurrentBuilder::new(n, u) allocates
+\* (l = width is the generator's choice; the end event shows the builder's)
+\* and the jobs are the calls set(i, x_i), every index exactly once
+EfbOK(ii) ==
+    LET lw == ii.width
+        js == UNION {{ii.prog[t][k] : k \in 1 .. Len(ii.prog[t])} : t \in 1 .. Len(ii.prog)}
+    IN  /\ ii.w = 64 /\ lw <= 30 /\ ii.u < Pow2(30) /\ ii.flen = ii.n
+        /\ ii.blen = ii.n + (ii.u \div Pow2(lw)) + 1
+        /\ ii.nfw = (IF CeilDiv(ii.n * lw, 64) = 0 THEN 1 ELSE CeilDiv(ii.n * lw, 64))
+        /\ ii.nbw = CeilDiv(ii.blen, 64)
+        /\ \A k \in 1 .. ii.nfw : ii.finit[k] = <<>>
+        /\ \A k \in 1 .. ii.nbw : ii.binit[k] = <<>>
+        /\ \A j \in js : /\ j.kind = "efset" /\ j.x <= ii.u
+                          /\ SeqSet(j.val) = BitsOfNat(j.x, lw)
+                          /\ j.hi = (j.x \div Pow2(lw)) + j.idx
+        /\ {j.idx : j \in js} = Low(ii.n)
+        /\ Cardinality(js) = ii.n
+
+\* same set bits; how many words the structure allocates is its own business
+WordsSame(logged, m, n) ==
+    /\ \A k \in 1 .. Len(logged) : SeqSet(logged[k]) = (IF k - 1 < n THEN m[k - 1] ELSE {})
+    /\ \A k \in Low(n) : k + 1 > Len(logged) => m[k] = {}
+
+PartsEq(p) ==
+    /\ p.n = I.n
+    /\ p.l.lw = Width /\ p.l.llen = I.flen /\ WordsSame(p.l.low, mem.f, I.nfw)
+    /\ p.h.hlen = I.blen /\ WordsSame(p.h.high, mem.b, I.nbw)
+    /\ p.vals = [i \in 1 .. I.n |-> JobOf(CHOOSE tk \in Jobs : JobOf(tk).idx = i - 1).x]
+
+EfbEndWhy(ev) ==
     IF ev.out # "ret" THEN "outcome"
+    ELSE IF ~Quiescent THEN "unfinished"
+    ELSE IF ~OutsEq(ev.outs) THEN "outs"
+    ELSE IF ~NoInterferenceAt(mem) THEN "interference"
+    ELSE IF ~PartsEq(ev.conc) THEN "ef-concurrent"
+    ELSE IF ~PartsEq(ev.seq) THEN "ef-sequential"
+    ELSE "ok"
+
+EndWhy(ev) ==
+    IF I.mode = "efb" THEN EfbEndWhy(ev)
+    ELSE IF ev.out # "ret" THEN "outcome"
     ELSE IF ~Quiescent THEN "unfinished"
     ELSE IF ~WordsEq(ev.fmem, mem.f, I.nfw) \/ ~WordsEq(ev.bmem, mem.b, I.nbw) THEN "final-mem"
     ELSE IF ~FieldsEq(ev.fget) THEN "get_atomic"
@@ -88,7 +141,8 @@ EndWhy(ev) ==
 
 BeginWhy(ev, ii) ==
     IF ev.out # "ret" THEN "outcome"
-    ELSE IF ~WellFormedI(ii) THEN "instance"
+    ELSE IF ~WellFormedI(ii) \/ ii.mode \notin {"vec", "efb"} THEN "instance"
+    ELSE IF ii.mode = "efb" THEN (IF EfbOK(ii) THEN "ok" ELSE "instance")
     ELSE IF ~WordsEq(ev.f0, InitMemI(ii).f, ii.nfw) \/ ~WordsEq(ev.b0, InitMemI(ii).b, ii.nbw) THEN "init-mem"
     ELSE "ok"
 
